@@ -31,7 +31,7 @@ def _run(variant, y, valid, nd, prm):
     return smooth.run_variant(variant, yy, nd, prm)
 
 
-def _adjudicate(what, variant, y, valid, prm, lam, out_a, out_b, rec=None, shift=0, ctx_twin=None):
+def _adjudicate(what, variant, y, valid, prm, lam, out_a, out_b, rec=None, shift=0, ctx_twin=None, alt=None):
     """out_a / out_b should be equal; accept unit differences at rounding ties of the reference curve."""
     d = np.asarray(out_a).astype(np.int64) - np.asarray(out_b).astype(np.int64)
     if not d.any():
@@ -53,12 +53,23 @@ def _adjudicate(what, variant, y, valid, prm, lam, out_a, out_b, rec=None, shift
     if not zs:
         return "unit_difference_unadjudicated"  # no reference curve at this lambda: counted, not judged
     kap = smooth.kappa(len(y), lam, valid, prm.get("p") if variant in smooth.NEEDS_P else None)
+    # Asymmetric variants: the curve is what at most 10 reweighting passes FROM THE ZERO CURVE reach (C03). Where that iteration
+    # has not converged, the related input (shifted / reversed) legitimately ends on a slightly different curve; the reference
+    # model shows by how much, and the tie width is widened by that path dependence.
+    path_dep = 0.0
+    if alt is not None and variant in smooth.NEEDS_P and variant not in smooth.ROBUST and zs:
+        try:
+            z_alt = alt()
+            if z_alt is not None and z_alt.shape == zs[0].shape:
+                path_dep = float(np.max(np.abs(z_alt - zs[0])))
+        except Exception:  # noqa: BLE001 - adjudication aid only
+            path_dep = 0.0
     explained = False
     worst = None
     for z in zs:
-        tau = refs.tie_tau(z, kap)
+        tau = refs.tie_tau(z, kap) + 2 * path_dep
         if tau >= 0.25:
-            return "unresolvable_conditioning"
+            return "unresolvable_conditioning" if path_dep < 0.05 else "asymmetric_iteration_not_converged"
         frac = np.abs(z - np.floor(z) - 0.5)
         bad = (d != 0) & (frac > tau)
         if not bad.any():
@@ -162,7 +173,8 @@ def sub_offset(case, rec=None):
     ya[~valid] = nd
     yb[~valid] = nd + c
     return _adjudicate("%s offset c=%d: f(y)+c vs f(y+c)" % (variant, c), variant, y, valid, prm, lam,
-                       np.asarray(o1).astype(np.int64) + c, o2, rec, shift=c, ctx_twin=(ya, nd, yb, nd + c))
+                       np.asarray(o1).astype(np.int64) + c, o2, rec, shift=c, ctx_twin=(ya, nd, yb, nd + c),
+                       alt=(lambda: smooth.reference_curve(variant, y + c, valid, lam, prm)[0] - c) if variant not in smooth.ROBUST else None)
 
 
 def sub_reverse(case, rec=None):
@@ -177,7 +189,8 @@ def sub_reverse(case, rec=None):
     if why:
         return why
     lam = prm["lam"] if l1 is None else l1
-    return _adjudicate("%s reversal: f(y) vs reversed f(reversed y)" % variant, variant, y, valid, prm, lam, o1, np.asarray(o2)[::-1], rec)
+    return _adjudicate("%s reversal: f(y) vs reversed f(reversed y)" % variant, variant, y, valid, prm, lam, o1, np.asarray(o2)[::-1], rec,
+                       alt=lambda: smooth.reference_curve(variant, y[::-1].copy(), valid[::-1].copy(), lam, prm)[0][::-1])
 
 
 def sub_offset_tyx(case, rec=None):
@@ -214,7 +227,8 @@ def sub_offset_tyx(case, rec=None):
             why = why or w
             continue
         w = _adjudicate("ws2doptvplc_tyx offset c=%d pixel %d: f(y)+c vs f(y+c)" % (c, k), "optvplc", pix[k], v, prm, float(l1[i, j]),
-                        z1[:, i, j].astype(np.int64) + c, z2[:, i, j], rec, shift=c)
+                        z1[:, i, j].astype(np.int64) + c, z2[:, i, j], rec, shift=c,
+                        alt=lambda k=k, v=v, prm=prm, lam=float(l1[i, j]): smooth.reference_curve("optvplc", pix[k] + c, v, lam, prm)[0] - c)
         why = why or w
     return why
 
